@@ -390,9 +390,11 @@ fn ill_typed_stmt(d: &mut Dec, p: &GProg) -> (&'static str, String) {
         5 if !enums.is_empty() => {
             let (a, vs) = enums[d.below(enums.len())];
             let (vn, ps) = &vs[d.below(vs.len())];
-            let n = ps.len() + 1 + d.below(2);
-            let args: Vec<String> = (0..n).map(|_| "1".to_string()).collect();
-            ("variant-arity", format!("let _ = {}::{}({});", a.name, vn, args.join(", ")))
+            // too many arguments, or (for a variant with at least two payload fields) too few
+            let few = ps.len() >= 2 && d.bool();
+            let n = if few { 1 + d.below(ps.len() - 1) } else { ps.len() + 1 + d.below(2) };
+            let args: Vec<String> = (0..n).map(|i| if few { lit_of(&ps[i]).unwrap_or_else(|| "1".to_string()) } else { "1".to_string() }).collect();
+            (if few { "variant-arity-few" } else { "variant-arity" }, format!("let _ = {}::{}({});", a.name, vn, args.join(", ")))
         }
         6..=9 if !methods.is_empty() => {
             // trait method calls: through the impl for a primitive type (static) or a trait object
@@ -412,12 +414,22 @@ fn ill_typed_stmt(d: &mut Dec, p: &GProg) -> (&'static str, String) {
                     }
                 }
                 8 => {
+                    // one argument too many, or (when the method has parameters) one too few
                     let mut args = good.clone();
-                    args.push("1".into());
-                    if d.bool() {
-                        ("method-arity", format!("let _ = {}::{}({}, {});", tn, sig.name, recv, args.join(", ")))
+                    let few = !args.is_empty() && d.bool();
+                    if few {
+                        args.remove(d.below(args.len()));
                     } else {
-                        ("dyn-method-arity", format!("let illd: dyn {} = {}; let _ = {}::{}(illd, {});", tn, recv, tn, sig.name, args.join(", ")))
+                        args.push("1".into());
+                    }
+                    let tail: String = args.iter().map(|a| format!(", {a}")).collect();
+                    if d.bool() {
+                        (if few { "method-arity-few" } else { "method-arity" }, format!("let _ = {}::{}({}{});", tn, sig.name, recv, tail))
+                    } else {
+                        (
+                            if few { "dyn-method-arity-few" } else { "dyn-method-arity" },
+                            format!("let illd: dyn {} = {}; let _ = {}::{}(illd{});", tn, recv, tn, sig.name, tail),
+                        )
                     }
                 }
                 _ => {
